@@ -3,10 +3,10 @@ NEXT Next
 CONSTANTS
   BlockSize = 2
   ResetFreeOnClear = TRUE
-  Dims <- DimsTiny
+  Dims <- DimsSmall
   NSparse = 2
   NDense = 1
-  MaxDepth = 6
+  MaxDepth = 7
 CONSTRAINT DepthBound
 INVARIANTS TypeOK Abstraction Traversals FindIsMember NoDangling Conservation FreedIsEmpty DenseTypeOK
 CHECK_DEADLOCK FALSE
